@@ -280,7 +280,7 @@ func runC05(c *eng.Ctx) {
 		for _, fk := range []string{qT + ".Get", qT + ".GC", qPersist, qT + ".initDataPageIndex"} {
 			f := c.Fn(fk)
 			var quo, rem []*ssa.BinOp
-			for _, b := range f.Blocks {
+			for _, b := range eng.BlocksT(f) {
 				for _, in := range b.Instrs {
 					bo, ok := in.(*ssa.BinOp)
 					if !ok {
